@@ -203,6 +203,12 @@ pub fn run(case: &Sx) -> (Sx, String) {
     for kv in case.at(5).as_l() { facts.set(&kv.at(0).as_s(), c01::val_of_sx(kv.at(1))); }
     let (mut verdicts, mut details) = (vec![], vec![]);
     let (mut nq, mut nyes) = (0, 0);
+    // the same history on a second engine with an IncrementalEngine (RETE + TMS + proof graph) attached to every query, with a
+    // retraction there after every query; query by query its verdict must be the one of a freshly built attached pair on the same facts
+    let mut att_engine = mk_engine(case);
+    let rete = std::sync::Arc::new(std::sync::Mutex::new(rust_rule_engine::rete::propagation::IncrementalEngine::new()));
+    let mut att_facts = Facts::new();
+    for kv in case.at(5).as_l() { att_facts.set(&kv.at(0).as_s(), c01::val_of_sx(kv.at(1))); }
     for op in case.at(6).as_l() {
         match op.at(0).as_u() {
             0 => {
@@ -221,13 +227,22 @@ pub fn run(case: &Sx) -> (Sx, String) {
                 let mut fresh_facts = Facts::new();
                 for (k, v) in snapshot.iter() { fresh_facts.set(k, v.clone()); }
                 let fr = fresh_engine.query(&q, &mut fresh_facts).expect("fresh query");
-                let same = (case.at(0).as_u() == 1 || fr.provable == res.provable) && engine.config().max_solutions == case.at(2).as_us() && engine.config().max_depth == case.at(1).as_us();
+                let att_snapshot = att_facts.get_all_facts();
+                let ra = att_engine.query_with_rete_engine(&q, &mut att_facts, Some(rete.clone()));
+                let mut fa_engine = mk_engine(case);
+                let frete = std::sync::Arc::new(std::sync::Mutex::new(rust_rule_engine::rete::propagation::IncrementalEngine::new()));
+                let mut fa_facts = Facts::new();
+                for (k, v) in att_snapshot.iter() { fa_facts.set(k, v.clone()); }
+                let rf = fa_engine.query_with_rete_engine(&q, &mut fa_facts, Some(frete));
+                let att_same = match (&ra, &rf) { (Ok(a), Ok(b)) => case.at(0).as_u() == 1 || a.provable == b.provable, (Err(_), Err(_)) => true, _ => false };
+                if let Ok(mut e) = rete.lock() { let hs = e.working_memory().get_all_handles(); if let Some(h) = hs.iter().min_by_key(|h| h.id()) { let _ = e.retract(*h); } }
+                let same = att_same && (case.at(0).as_u() == 1 || fr.provable == res.provable) && engine.config().max_solutions == case.at(2).as_us() && engine.config().max_depth == case.at(1).as_us();
                 verdicts.push(Sx::l(vec![Sx::b(res.provable)]));
                 details.push(Sx::l(vec![Sx::b(res.provable), before, after, Sx::b(same)]));
             }
             3 => { let _ = engine.query_aggregate("count(?x) WHERE (unclosed", &mut facts); verdicts.push(Sx::l(vec![])); details.push(Sx::l(vec![])); }
-            1 => { facts.set(&op.at(1).as_s(), c01::val_of_sx(op.at(2))); verdicts.push(Sx::l(vec![])); details.push(Sx::l(vec![])); }
-            _ => { facts.remove(&op.at(1).as_s()); verdicts.push(Sx::l(vec![])); details.push(Sx::l(vec![])); }
+            1 => { facts.set(&op.at(1).as_s(), c01::val_of_sx(op.at(2))); att_facts.set(&op.at(1).as_s(), c01::val_of_sx(op.at(2))); verdicts.push(Sx::l(vec![])); details.push(Sx::l(vec![])); }
+            _ => { facts.remove(&op.at(1).as_s()); att_facts.remove(&op.at(1).as_s()); verdicts.push(Sx::l(vec![])); details.push(Sx::l(vec![])); }
         }
     }
     let label = if nyes == 0 { "trivial: nothing provable".to_string() } else { format!("s{} {} of {} provable", case.at(0).as_u(), nyes.min(3), nq.min(6)) };
